@@ -53,6 +53,8 @@ INVARIANT UnitsAtOrAboveLevelOwnFile
 INVARIANT NamesDistinct
 INVARIANT LinksLand
 INVARIANT NavIsAChain
+INVARIANT TocReachesEveryFile
+INVARIANT TocEntriesOwnFiles
 INVARIANT Emit
 '''
 
